@@ -394,6 +394,46 @@ func ruleL4(p *Prog, r *Report) {
 		"CBORTagSlabID":            "decoded by the client's StorableDecoder, which calls DecodeSlabIDStorable",
 		"CBORTagTypeInfoRef":       "decoded by the client's TypeInfoDecoder through the inlined type-info reference",
 	}
+	// helpers called (transitively) from encode-side / decode-side functions belong to that side too, whatever
+	// their name (a tag-number table extracted from an encoder)
+	helperSide := map[string]string{}
+	{
+		sideOfFn := map[*ssa.Function]string{}
+		for _, f := range p.TopFuncs() {
+			if p.IsTestFile(f.Pos()) {
+				continue
+			}
+			sd := side(p.Name(f))
+			if sd == "" {
+				for _, prm := range f.Params {
+					if isEncoderPtr(prm.Type()) {
+						sd = "enc"
+					}
+				}
+			}
+			if sd != "" {
+				sideOfFn[f] = sd
+			}
+		}
+		for changed := true; changed; {
+			changed = false
+			for f, sd := range sideOfFn {
+				for _, g := range p.calleesDeep(f) {
+					gt := TopLevel(g)
+					if gt.Pkg != p.RootSSA || p.IsTestFile(gt.Pos()) {
+						continue
+					}
+					if _, has := sideOfFn[gt]; !has && side(p.Name(gt)) == "" {
+						sideOfFn[gt] = sd
+						changed = true
+					}
+				}
+			}
+		}
+		for f, sd := range sideOfFn {
+			helperSide[p.Name(f)] = sd
+		}
+	}
 	uses := p.constUses("CBORTag")
 	var names []string
 	for n := range uses {
@@ -407,7 +447,11 @@ func ruleL4(p *Prog, r *Report) {
 			if isDiagnosticFileFunc(fn) {
 				continue
 			}
-			switch side(fn) {
+			sd := side(fn)
+			if sd == "" {
+				sd = helperSide[fn]
+			}
+			switch sd {
 			case "enc":
 				enc = true
 			case "dec":
